@@ -1,0 +1,382 @@
+// Verification hooks (cargo feature `verif-hooks`).
+//
+// This module is compiled only when the `verif-hooks` feature is enabled. It
+// gives an external verification harness (see /verif) a read-only view of the
+// generator while it runs:
+//
+// * a thread-local event recorder (`start_recording` / `stop_recording`),
+// * an optional callback that is invoked *before* every entropy draw (used as
+//   the scheduling point of a cooperative scheduler),
+// * a seedable `BuildHasher` for the memo table so that hash-map iteration
+//   orders can be enumerated instead of being left to `RandomState`.
+//
+// No hook changes a value, a branch or the order of entropy draws.
+
+use std::cell::{Cell, RefCell};
+use std::collections::HashMap;
+use std::hash::{BuildHasher, Hasher};
+use std::rc::Rc;
+
+use crate::generator::Generator;
+use crate::stack::{StackObject, StackObjectRef};
+
+/// kind tags of simulated stack objects (one per `StackObject` variant)
+pub mod tag {
+    pub const INT: u8 = 0;
+    pub const FLOAT: u8 = 1;
+    pub const BOOL: u8 = 2;
+    pub const NONE: u8 = 3;
+    pub const BYTES: u8 = 4;
+    pub const STRING: u8 = 5;
+    pub const BYTEARRAY: u8 = 6;
+    pub const LIST: u8 = 7;
+    pub const TUPLE: u8 = 8;
+    pub const DICT: u8 = 9;
+    pub const SET: u8 = 10;
+    pub const FROZENSET: u8 = 11;
+    pub const MARK: u8 = 12;
+    pub const GLOBAL: u8 = 13;
+    pub const INSTANCE: u8 = 14;
+    pub const CALLABLE: u8 = 15;
+    pub const EXTENSION: u8 = 16;
+    pub const ANY: u8 = 17;
+}
+
+fn tag_of(obj: &StackObject) -> u8 {
+    match obj {
+        StackObject::Int(_) => tag::INT,
+        StackObject::Float(_) => tag::FLOAT,
+        StackObject::Bool(_) => tag::BOOL,
+        StackObject::None => tag::NONE,
+        StackObject::Bytes(_) => tag::BYTES,
+        StackObject::String(_) => tag::STRING,
+        StackObject::ByteArray(_) => tag::BYTEARRAY,
+        StackObject::List(_) => tag::LIST,
+        StackObject::Tuple(_) => tag::TUPLE,
+        StackObject::Dict(_) => tag::DICT,
+        StackObject::Set(_) => tag::SET,
+        StackObject::FrozenSet(_) => tag::FROZENSET,
+        StackObject::Mark => tag::MARK,
+        StackObject::Global { .. } => tag::GLOBAL,
+        StackObject::Instance(_) => tag::INSTANCE,
+        StackObject::Callable(_) => tag::CALLABLE,
+        StackObject::Extension(_) => tag::EXTENSION,
+        StackObject::Any => tag::ANY,
+    }
+}
+
+/// flat view of the simulated machine at one point of a generation
+#[derive(Debug, Clone, PartialEq, Eq, Default)]
+pub struct Snap {
+    /// bytes emitted so far
+    pub out_len: usize,
+    /// kind tag of every stack slot, bottom first
+    pub stack: Vec<u8>,
+    /// (memo key, kind tag), sorted by key
+    pub memo: Vec<(usize, u8)>,
+    pub proto_emitted: bool,
+}
+
+/// alias-preserving object graph reachable from the stack and the memo
+#[derive(Debug, Clone, PartialEq, Eq, Default)]
+pub struct Graph {
+    /// (kind tag, children) per node; nodes are numbered in first-visit order
+    /// (stack bottom to top, then memo by ascending key, depth first)
+    pub nodes: Vec<(u8, Vec<u32>)>,
+    pub stack: Vec<u32>,
+    pub memo: Vec<(usize, u32)>,
+}
+
+#[derive(Debug, Clone, Copy, PartialEq, Eq, Hash)]
+pub enum ValueKind {
+    Int,
+    Long,
+    Float,
+    Str,
+    Bytes,
+    MemoIndex,
+}
+
+#[derive(Debug, Clone, PartialEq)]
+pub enum Event {
+    /// one call of an `EntropySource` method on `GenerationSource`
+    Draw {
+        method: &'static str,
+        a: u64,
+        b: u64,
+        /// result widened to 64 bits (`f64::to_bits`, `char as u64`, length for `gen_bytes`)
+        result: u64,
+        /// unread fuzzer bytes before / after (0 in PRNG mode)
+        rem_before: usize,
+        rem_after: usize,
+    },
+    Header { use_frame: bool, snap: Snap },
+    Target { target: usize },
+    StepBegin { valid: Vec<u8>, snap: Snap },
+    Chosen { opcode: u8 },
+    LoopEnd { valid: Vec<u8>, snap: Snap },
+    /// after an argument-less opcode went through `emit_opcode` (body or cleanup)
+    AfterEmit { opcode: u8, snap: Snap },
+    CleanupDone { snap: Snap },
+    Done { snap: Snap },
+    /// a value passes through a `mutate_*` hook
+    MutSite { kind: ValueKind, input: Vec<u8> },
+    MutFired { kind: ValueKind, mutator: String },
+    MutDone { kind: ValueKind, output: Vec<u8> },
+    /// `post_process` changed already emitted bytes
+    Rewrite { at: usize, old_len: usize, new_len: usize },
+    /// object graph (only when graph recording is on), taken where `StepBegin`/`LoopEnd`/`Done` are
+    GraphAt { out_len: usize, graph: Graph },
+}
+
+thread_local! {
+    static REC: RefCell<Option<Vec<Event>>> = const { RefCell::new(None) };
+    static ACTIVE: Cell<bool> = const { Cell::new(false) };
+    static WANT_GRAPH: Cell<bool> = const { Cell::new(false) };
+    static IN_DRAW: Cell<bool> = const { Cell::new(false) };
+    static DRAW_HOOK: RefCell<Option<Box<dyn FnMut()>>> = const { RefCell::new(None) };
+    static HAS_DRAW_HOOK: Cell<bool> = const { Cell::new(false) };
+    static MEMO_SEED: Cell<u64> = const { Cell::new(0) };
+}
+
+/// start recording events on this thread (discarding anything recorded before)
+pub fn start_recording(with_graph: bool) {
+    REC.with(|r| *r.borrow_mut() = Some(Vec::with_capacity(64)));
+    WANT_GRAPH.with(|g| g.set(with_graph));
+    ACTIVE.with(|a| a.set(true));
+    IN_DRAW.with(|d| d.set(false));
+}
+
+/// stop recording and return the events recorded on this thread
+pub fn stop_recording() -> Vec<Event> {
+    ACTIVE.with(|a| a.set(false));
+    WANT_GRAPH.with(|g| g.set(false));
+    IN_DRAW.with(|d| d.set(false));
+    REC.with(|r| r.borrow_mut().take()).unwrap_or_default()
+}
+
+/// install (or remove) a callback that runs before every entropy draw of this thread
+pub fn set_draw_hook(hook: Option<Box<dyn FnMut()>>) {
+    HAS_DRAW_HOOK.with(|h| h.set(hook.is_some()));
+    DRAW_HOOK.with(|d| *d.borrow_mut() = hook);
+    IN_DRAW.with(|d| d.set(false));
+}
+
+/// seed used by memo tables created on this thread from now on
+pub fn set_memo_hash_seed(seed: u64) {
+    MEMO_SEED.with(|s| s.set(seed));
+}
+
+#[inline]
+pub(crate) fn active() -> bool {
+    ACTIVE.with(|a| a.get())
+}
+
+#[inline]
+pub(crate) fn emit(f: impl FnOnce() -> Event) {
+    if active() {
+        let ev = f();
+        REC.with(|r| {
+            if let Some(v) = r.borrow_mut().as_mut() {
+                v.push(ev);
+            }
+        });
+    }
+}
+
+/// true if the caller (an `EntropySource` method) should run itself through
+/// `draw_done`; false for the nested call that does the real work
+#[inline]
+pub(crate) fn enter_draw() -> bool {
+    if !(active() || HAS_DRAW_HOOK.with(|h| h.get())) {
+        return false;
+    }
+    if IN_DRAW.with(|d| d.get()) {
+        return false;
+    }
+    // scheduling point: the hook may block until this thread is allowed to draw
+    let hook = DRAW_HOOK.with(|d| d.borrow_mut().take());
+    if let Some(mut h) = hook {
+        h();
+        DRAW_HOOK.with(|d| {
+            let mut slot = d.borrow_mut();
+            if slot.is_none() && HAS_DRAW_HOOK.with(|x| x.get()) {
+                *slot = Some(h);
+            }
+        });
+    }
+    IN_DRAW.with(|d| d.set(true));
+    true
+}
+
+#[inline]
+pub(crate) fn draw_done(
+    method: &'static str,
+    a: u64,
+    b: u64,
+    result: u64,
+    rem_before: usize,
+    rem_after: usize,
+) {
+    IN_DRAW.with(|d| d.set(false));
+    emit(|| Event::Draw {
+        method,
+        a,
+        b,
+        result,
+        rem_before,
+        rem_after,
+    });
+}
+
+pub(crate) fn snap(g: &Generator) -> Snap {
+    let mut memo: Vec<(usize, u8)> = g
+        .state
+        .memo
+        .iter()
+        .map(|(k, v)| (*k, tag_of(&v.borrow())))
+        .collect();
+    memo.sort_unstable();
+    Snap {
+        out_len: g.output.len(),
+        stack: g
+            .state
+            .stack
+            .inner
+            .iter()
+            .map(|o| tag_of(&o.borrow()))
+            .collect(),
+        memo,
+        proto_emitted: g.state.proto_emitted,
+    }
+}
+
+pub(crate) fn emit_graph(g: &Generator) {
+    if active() && WANT_GRAPH.with(|w| w.get()) {
+        let gr = graph(g);
+        let out_len = g.output.len();
+        emit(|| Event::GraphAt {
+            out_len,
+            graph: gr,
+        });
+    }
+}
+
+/// alias-preserving serialisation of everything reachable from stack and memo
+/// (iterative, cycle-safe)
+pub fn graph(g: &Generator) -> Graph {
+    let mut ids: HashMap<*const RefCell<StackObject>, u32> = HashMap::new();
+    let mut nodes: Vec<(u8, Vec<u32>)> = Vec::new();
+
+    fn children(obj: &StackObject) -> Vec<StackObjectRef> {
+        match obj {
+            StackObject::List(v) | StackObject::Tuple(v) => v.clone(),
+            StackObject::Dict(m) => {
+                // order by nothing observable: pointer-keyed map; sort later by node id
+                m.iter().flat_map(|(k, v)| [k.clone(), v.clone()]).collect()
+            }
+            StackObject::Set(s) | StackObject::FrozenSet(s) => s.iter().cloned().collect(),
+            StackObject::Instance(i) => vec![i.callable.clone(), i.args.clone()],
+            StackObject::Callable(c) => vec![c.clone()],
+            _ => Vec::new(),
+        }
+    }
+
+    // iterative depth-first numbering
+    let visit = |root: &StackObjectRef,
+                     ids: &mut HashMap<*const RefCell<StackObject>, u32>,
+                     nodes: &mut Vec<(u8, Vec<u32>)>|
+     -> u32 {
+        let key = Rc::as_ptr(&root.0);
+        if let Some(&id) = ids.get(&key) {
+            return id;
+        }
+        let mut work: Vec<StackObjectRef> = vec![root.clone()];
+        let root_id = nodes.len() as u32;
+        ids.insert(key, root_id);
+        nodes.push((tag_of(&root.borrow()), Vec::new()));
+        while let Some(cur) = work.pop() {
+            let cur_id = ids[&Rc::as_ptr(&cur.0)];
+            let kids = children(&cur.borrow());
+            let unordered = matches!(
+                *cur.borrow(),
+                StackObject::Dict(_) | StackObject::Set(_) | StackObject::FrozenSet(_)
+            );
+            let mut kid_ids = Vec::with_capacity(kids.len());
+            for k in kids {
+                let kp = Rc::as_ptr(&k.0);
+                let id = if let Some(&id) = ids.get(&kp) {
+                    id
+                } else {
+                    let id = nodes.len() as u32;
+                    ids.insert(kp, id);
+                    nodes.push((tag_of(&k.borrow()), Vec::new()));
+                    work.push(k);
+                    id
+                };
+                kid_ids.push(id);
+            }
+            if unordered {
+                // pointer-hashed containers have no meaningful order
+                kid_ids.sort_unstable();
+            }
+            nodes[cur_id as usize].1 = kid_ids;
+        }
+        root_id
+    };
+
+    let stack: Vec<u32> = g
+        .state
+        .stack
+        .inner
+        .iter()
+        .map(|o| visit(o, &mut ids, &mut nodes))
+        .collect();
+    let mut keys: Vec<usize> = g.state.memo.keys().copied().collect();
+    keys.sort_unstable();
+    let memo: Vec<(usize, u32)> = keys
+        .into_iter()
+        .map(|k| (k, visit(&g.state.memo[&k], &mut ids, &mut nodes)))
+        .collect();
+    Graph { nodes, stack, memo }
+}
+
+/// key iteration order of the memo table (what `memo.keys()` yields), for the
+/// harness to confirm that different hash seeds really produce different orders
+pub fn memo_key_order(g: &Generator) -> Vec<usize> {
+    g.state.memo.keys().copied().collect()
+}
+
+/// `BuildHasher` of the memo table under `verif-hooks`: SipHash keyed by the
+/// thread-local seed that was current when the table was created
+#[derive(Debug, Clone)]
+pub struct MemoHasher(u64);
+
+impl Default for MemoHasher {
+    fn default() -> Self {
+        MemoHasher(MEMO_SEED.with(|s| s.get()))
+    }
+}
+
+impl BuildHasher for MemoHasher {
+    type Hasher = std::collections::hash_map::DefaultHasher;
+    fn build_hasher(&self) -> Self::Hasher {
+        let mut h = std::collections::hash_map::DefaultHasher::new();
+        h.write_u64(self.0);
+        h
+    }
+}
+
+pub(crate) fn bytes_of_i32(v: i32) -> Vec<u8> {
+    v.to_le_bytes().to_vec()
+}
+#[allow(dead_code)]
+pub(crate) fn bytes_of_i64(v: i64) -> Vec<u8> {
+    v.to_le_bytes().to_vec()
+}
+pub(crate) fn bytes_of_f64(v: f64) -> Vec<u8> {
+    v.to_bits().to_le_bytes().to_vec()
+}
+pub(crate) fn bytes_of_usize(v: usize) -> Vec<u8> {
+    (v as u64).to_le_bytes().to_vec()
+}
